@@ -118,7 +118,8 @@ class WcBase(plumpy.WorkChain):
         self._t('leave', i, 'wc')
         if st.get('ret') is not None:
             return st['ret']
-        if toctx:
+        if toctx or st.get('empty_tc'):
+            # ('empty_tc': the step returns a context assignment in any case, empty when everything was handed over with to_context())
             return plumpy.ToContext(**toctx)
         return None
 
